@@ -284,8 +284,23 @@ def decompose_and_order(graph, component, component_name, bo_start=0):
     # I save tags as key:(type, value), so "SO":(i, '123')
     coordinates = list(int(new_graph[n].tags["SO"][1]) for n in traversal_scaffold_only)
 
-    # make sure that the traversal is in ascending order
-    if coordinates[0] > coordinates[-1]:
+    # make sure that the traversal is in ascending order. With a single scaffold node its
+    # coordinate alone cannot orient the chain, so collapsed bubbles are placed by the
+    # smallest SO among their nodes on the scaffold contig
+    ref_sn = new_graph[traversal_scaffold_only[0]].tags["SN"]
+    element_coordinates = []
+    for node_name in traversal:
+        if scaffold_node_types[node_name] == "s":
+            element_coordinates.append(int(new_graph[node_name].tags["SO"][1]))
+        else:
+            on_ref = [
+                int(new_graph[n].tags["SO"][1])
+                for n in bubbles[int(node_name)]
+                if new_graph[n].tags.get("SN") == ref_sn
+            ]
+            if on_ref:
+                element_coordinates.append(min(on_ref))
+    if element_coordinates[0] > element_coordinates[-1]:
         traversal.reverse()
         traversal_scaffold_only.reverse()
         coordinates.reverse()
